@@ -7,6 +7,6 @@ if [ -n "${VP_RUN_REPO:-}" ]; then
   export XSGV_REPO="$VP_RUN_REPO"
 fi
 ./setup.sh >/dev/null 2>&1
-for p in C15 C16 C03 C01 C09 C11 C10 C14 C04 C06 C05 C08 C07 C12 C13 C02; do
+for p in ${ORDER:-C15 C16 C03 C01 C09 C11 C10 C14 C04 C06 C05 C08 C07 C12 C13 C02}; do
   s=$(date +%s); ./check $p thorough 2>&1 | cut -c1-300 | tail -3; echo "  [$p took $(( $(date +%s)-s )) s]"
 done
